@@ -210,6 +210,9 @@ class GateFactory(Modulator):
             token[:lb] = 0
         if ub > 0:
             token[ub:] = 0
+        else:
+            # The chunk starts at or after the end of the gate.
+            token[:] = 0
         self.offset += samples
         return token
 
